@@ -1,0 +1,40 @@
+//go:build verif
+
+package nsqd
+
+// verif-only exports used by the external model-based checking harness.
+
+// VerifGUIDFactory wraps the unexported id generator.
+type VerifGUIDFactory struct{ f *guidFactory }
+
+// VerifNewGUIDFactory returns a fresh generator for nodeID.
+func VerifNewGUIDFactory(nodeID int64) *VerifGUIDFactory {
+	return &VerifGUIDFactory{f: NewGUIDFactory(nodeID)}
+}
+
+// Inject overwrites the generator state.
+func (v *VerifGUIDFactory) Inject(lastTs, sequence, lastID int64) {
+	v.f.Lock()
+	v.f.lastTimestamp = lastTs
+	v.f.sequence = sequence
+	v.f.lastID = guid(lastID)
+	v.f.Unlock()
+}
+
+// State returns (lastTimestamp, sequence, lastID).
+func (v *VerifGUIDFactory) State() (int64, int64, int64) {
+	v.f.Lock()
+	defer v.f.Unlock()
+	return v.f.lastTimestamp, v.f.sequence, int64(v.f.lastID)
+}
+
+// NewGUID calls the real generator once.
+func (v *VerifGUIDFactory) NewGUID() (int64, error) {
+	id, err := v.f.NewGUID()
+	return int64(id), err
+}
+
+// VerifTopicGUID exposes the id generator of a live topic.
+func VerifTopicGUID(t *Topic) *VerifGUIDFactory {
+	return &VerifGUIDFactory{f: t.idFactory}
+}
